@@ -33,14 +33,15 @@ type LoadOpts struct {
 
 // Prog is a loaded, type-checked program in SSA form.
 type Prog struct {
-	Opts    LoadOpts
-	Fset    *token.FileSet
-	Pkgs    []*packages.Package          // repo packages (roots)
-	ByPath  map[string]*packages.Package // all packages seen, by import path
-	SSA     *ssa.Program
-	SSAPkgs map[string]*ssa.Package // by import path (repo packages; with Deps all)
-	funcs   []*ssa.Function         // every repo function incl. anonymous ones, sorted by position
-	byDecl  map[*types.Func]*ssa.Function
+	Opts      LoadOpts
+	Fset      *token.FileSet
+	Pkgs      []*packages.Package          // repo packages (roots)
+	ByPath    map[string]*packages.Package // all packages seen, by import path
+	SSA       *ssa.Program
+	SSAPkgs   map[string]*ssa.Package // by import path (repo packages; with Deps all)
+	funcs     []*ssa.Function         // every repo function incl. anonymous ones, sorted by position
+	byDecl    map[*types.Func]*ssa.Function
+	implCache map[*types.Func][]*ssa.Function
 }
 
 // Load type-checks the repository's current working tree and builds SSA for the repo packages.
